@@ -1,8 +1,10 @@
 (* I/O wrapper around the extracted models and specification of C05/C06 (coq/Msg/Ops.v). Same line
    protocol as harness/src/bin/c05.rs (see there); differences:
-     m ... <body>      body is always  B:<bodyhex>:<sighex>:<nfds>  (what the harness reported for the message)
+     m <mode> ... <body>   body is always  B:<bodyhex>:<sighex>:<nfds>  (what the harness reported for the message); mode b =
+                       the message is built by the models of the builders (build_call / build_signal via op_build)
        -> H:<hex|err> S:<hex> D:<decoded>      H = model of marshal, S = the specification's header
-     s <name> <args>   -> M:<message as the harness prints it>        (constructor model only)
+     s <name> <args>   -> M:<message as the harness prints it> B:<body>:<sig>:<nfds> | M:PANIC   (constructor models of
+                       Msg/StdMsgs.v incl. the pushed body; PANIC = a pushed string argument contains NUL, known finding D24)
      d <hex> <nfds>    -> D:<decoded>
      n <hex>           -> N:<n|err>
      f                 -> same line as the harness
@@ -102,9 +104,7 @@ let eval (line : string) : string =
       let (bb, sg, nf) = (match String.split_on_char ':' body with
         | ["B"; b; s; n] -> (list_of_hex b, list_of_hex s, n_of_string n)
         | _ -> raise (Bad "body")) in
-      let m = { m_typ = typ; m_flags = flags; m_be = be; m_reply_serial = rs; m_interface = iface;
-                m_destination = dest; m_sender = sender; m_member = member; m_object = path; m_error_name = err;
-                m_body = bb; m_sig = sg; m_nfds = nf } in
+      let m = op_build (_mode = "b") be typ flags rs iface dest sender member path err bb sg nf in
       let (r, spec) = op_marshal m serial in
       (match r with
        | Ok hb ->
@@ -116,26 +116,29 @@ let eval (line : string) : string =
       let name = next () in
       let _serial = next () in
       let arg () = list_of_hex (next ()) in
-      let m = (match name with
-        | "hello" -> make_standard_msg s_Hello
-        | "ping" -> std_ping (Some (arg ()))
-        | "ping_bus" -> std_ping None
-        | "list_names" -> make_standard_msg s_ListNames
-        | "request_name" -> make_standard_msg s_RequestName
-        | "release_name" -> make_standard_msg s_ReleaseName
-        | "add_match" -> make_standard_msg s_AddMatch
-        | "remove_match" -> make_standard_msg s_RemoveMatch
-        | "unknown_method" | "invalid_args" | "make_response" | "make_error_response" ->
-            let _i = next () in let _m = next () in let _o = next () in
-            let sender = ostr (next ()) in
-            let ser = (match next () with "-" | "0" -> None | s -> Some (n_of_string s)) in
-            (match name with
-             | "unknown_method" -> std_unknown_method sender ser
-             | "invalid_args" -> std_invalid_args sender ser
-             | "make_response" -> make_response false sender ser
-             | _ -> make_error_response false sender ser (arg ()))
+      let call () =
+        let i = ostr (next ()) in let m = ostr (next ()) in let o = ostr (next ()) in
+        let sender = ostr (next ()) in
+        let ser = (match next () with "-" | "0" -> None | s -> Some (n_of_string s)) in
+        { c_interface = i; c_member = m; c_object = o; c_sender = sender; c_serial = ser } in
+      let r = (match name with
+        | "hello" -> std_hello
+        | "ping" -> std_ping_msg (Some (arg ()))
+        | "ping_bus" -> std_ping_msg None
+        | "list_names" -> std_list_names
+        | "request_name" -> let a = arg () in std_request_name a (n_of_string (next ()))
+        | "release_name" -> std_release_name (arg ())
+        | "add_match" -> std_add_match (arg ())
+        | "remove_match" -> std_remove_match (arg ())
+        | "unknown_method" -> std_unknown_method_msg (call ())
+        | "invalid_args" -> let c = call () in std_invalid_args_msg c (ostr (next ()))
+        | "make_response" -> std_make_response (call ())
+        | "make_error_response" -> let c = call () in let nm = arg () in std_make_error_response c nm (ostr (next ()))
         | _ -> raise (Bad "constructor")) in
-      "M:" ^ msg_args m
+      (match r with
+       | Ok m -> Printf.sprintf "M:%s B:%s:%s:%s" (msg_args m) (hex_of_list m.m_body) (hex_of_list m.m_sig) (string_of_n m.m_nfds)
+       | Panic -> "M:PANIC"
+       | Err -> "M:err" | UB -> "M:ub" | OutOfFuel -> "M:fuel")
   | "d" ->
       let bs = list_of_hex (next ()) in
       let nf = if !pos < Array.length toks then n_of_string (next ()) else N0 in
